@@ -804,6 +804,7 @@ impl<'a> Session<'a> {
                 g!(inb.add_regular_utxo(&utxo));
                 self.tx.set_inputs(&self.inb);
                 self.mark_value_change();
+                self.mark_script_change();
                 Res::Ok
             }
             Op::InLegacy(u) => {
@@ -824,6 +825,7 @@ impl<'a> Session<'a> {
                 }
                 self.tx.set_inputs(&self.inb);
                 self.mark_value_change();
+                self.mark_script_change();
                 Res::Ok
             }
             Op::InScript { utxo, wit, by_utxo } => {
@@ -1295,6 +1297,7 @@ impl<'a> Session<'a> {
                 self.select_post(obs, ev0, r.clone(), sim);
                 self.selected_once = true;
                 self.mark_value_change();
+                self.mark_script_change();
                 r
             }
             Op::Change(c) => {
@@ -1340,6 +1343,7 @@ impl<'a> Session<'a> {
                 self.select_post(obs, ev0, r.clone(), sim);
                 self.selected_once = true;
                 self.mark_value_change();
+                self.mark_script_change();
                 if r.is_ok() {
                     self.balanced_at = Some(idx);
                     self.dirty_balance = false;
@@ -1362,6 +1366,7 @@ impl<'a> Session<'a> {
                 self.select_post(obs, ev0, r.clone(), sim);
                 self.selected_once = true;
                 self.mark_value_change();
+                self.mark_script_change();
                 if r.is_ok() {
                     self.balanced_at = Some(idx);
                     self.dirty_balance = false;
